@@ -56,16 +56,22 @@ def vector_configs(tier, seed=1):
     """Configurations for engines that exercise vector code (mem, fenv)."""
     if tier == 'quick':
         # one configuration per macro that selects many distinct preprocessor branches (SSE2, SSSE3, SSE4.1, AVX, AVX2, AVX-512 F / VL / BW / DQ)
-        return [mk('g++', 'c++11', 'none'), mk('g++', 'c++11', 'SSE2'), mk('g++', 'c++14', 'SSSE3', finl=True), mk('g++', 'c++17', 'SSE4_2'),
-                mk('clang++', 'c++17', 'AVX'), mk('g++', 'c++11', 'AVX2'), mk('clang++', 'c++14', 'AVX512F', finl=True),
-                mk('g++', 'c++20', 'F_VL'), mk('g++', 'c++14', 'F_BW'), mk('g++', 'c++11', 'full')]
-    out = []
+        # plus both compilers below SSE4.1 and two UNOPTIMISED GCC builds (code as written: no folding of redundant loads, undefined
+        # values stay undefined) - independently seeded changes c08e, c09f and c11e showed that these dimensions matter
+        return [mk('g++', 'c++11', 'none'), mk('g++', 'c++11', 'SSE2'), mk('clang++', 'c++14', 'SSSE3', finl=True), mk('g++', 'c++17', 'SSE4_2'),
+                mk('clang++', 'c++17', 'AVX'), mk('g++', 'c++11', 'AVX2'), mk('g++', 'c++17', 'AVX2', opt='-O0'), mk('clang++', 'c++14', 'AVX512F', finl=True),
+                mk('g++', 'c++20', 'F_VL'), mk('g++', 'c++14', 'F_BW'), mk('g++', 'c++14', 'F_VL_BW', opt='-O0', finl=True), mk('g++', 'c++11', 'full')]
+    out = vector_configs('quick', seed)          # the thorough tier is a superset of the quick tier
     stds = ['c++11', 'c++14', 'c++17', 'c++20']
     for cxx in ('g++', 'clang++'):
         for ms in ORDER:
             k = _knob('%s/%s/%d' % (cxx, ms, seed), 16)
             out.append(mk(cxx, stds[k % 4], ms, opt='-O0' if (k >> 2) % 4 == 0 else '-O2', finl=bool((k >> 3) & 1) or (k >> 2) % 4 == 0))
-    return out
+    seen, uniq = set(), []
+    for c in out:
+        if c['id'] not in seen:
+            seen.add(c['id']); uniq.append(c)
+    return uniq
 
 
 def heap_configs(tier, seed=1):
